@@ -33,8 +33,8 @@ Ltac rd := first
   | rewrite sl_ok by (sl_norm; lia)
   | rewrite slfrom_ok by (sl_norm; lia) ].
 
-Lemma parse_proto_safe s f proto :
-  wf s -> (0 < f_offP f)%nat -> (f_offP f <= len s)%nat -> safe (parse_proto s f proto).
+Lemma parse_proto_safe fx s f proto :
+  wf s -> (0 < f_offP f)%nat -> (f_offP f <= len s)%nat -> safe (parse_proto fx s f proto).
 Proof.
   intros Hwf H0 H1. unfold parse_proto.
   repeat match goal with |- context [if ?c then _ else _] => destruct c end;
@@ -49,6 +49,13 @@ Qed.
 
 Ltac dleb := repeat match goal with |- context [if Nat.leb ?a ?b then _ else _] => destruct (Nat.leb_spec a b) end.
 
+(* [if c && Nat.leb a b then _ else _]: split, keep both conjuncts (the second as a Prop) *)
+Ltac dcond :=
+  match goal with |- context [if ?c && Nat.leb ?a ?b then _ else _] =>
+    let E := fresh "E" in let Ea := fresh "Ea" in
+    destruct (c && Nat.leb a b) eqn:E;
+    [apply Bool.andb_true_iff in E; destruct E as [Ea E]; apply Nat.leb_le in E|] end.
+
 Lemma parse_ip4_safe c s f :
   wf s -> f_offP f = 14%nat -> (14 <= len s)%nat -> safe (parse_ip4 c s f).
 Proof.
@@ -57,9 +64,9 @@ Proof.
   unfold ip4_is_valid, ip4_ihl, ip4_totallen, ip4_protocol, ip4_src, ip4_dst, bytes_at. cbn [len].
   destruct (Nat.leb_spec 20 (len s - 14)); cbn [bind]; [|apply safe_Err].
   repeat (rd; cbn [bind]).
-  match goal with |- context [if Nat.leb ?a ?b then _ else _] => destruct (Nat.leb_spec a b) end; cbn [bind]; [|apply safe_Err].
+  dcond; cbn [bind]; [|apply safe_Err].
   repeat (rd; cbn [bind]).
-  match goal with |- context [if Nat.leb ?a ?b then _ else _] => destruct (Nat.leb_spec a b) end; cbn [bind]; [|apply safe_Err].
+  dcond; cbn [bind]; [|apply safe_Err].
   repeat (rd; cbn [bind]).
   apply parse_proto_safe; cbn [f_offP]; try assumption; lia.
 Qed.
@@ -120,7 +127,11 @@ Proof.
     try apply safe_Ok; apply parse_leaf_safe; auto.
 Qed.
 
-Definition cfg0 : cfg := mkCfg [0;85;85;85;85;85] [0;102;102;102;102;102] [192;168;0;0] 24.
+(* standard configuration; validators as they were before the VIEWS repairs / after them *)
+Definition fx_old : fixes := mkFixes false false false.
+Definition fx_new : fixes := mkFixes true true true.
+Definition cfg0 : cfg := mkCfg [0;85;85;85;85;85] [0;102;102;102;102;102] [192;168;0;0] 24 fx_old.
+Definition cfg1 : cfg := mkCfg [0;85;85;85;85;85] [0;102;102;102;102;102] [192;168;0;0] 24 fx_new.
 
 (* 19-byte ARP frame (hardware length 6): arp[14:18] beyond the capacity *)
 Definition w_arp19 : bytes := (repeat 0 12 ++ [8;6] ++ [0;1;8;0;6])%list.
